@@ -198,13 +198,19 @@ def body_strategy(draw, cfg, depth, in_loop, budget, in_child_top=False):
 
 KINDS_LEAF = ["text", "text", "text", "expr", "expr", "expr", "raw", "set", "esc", "bexpr", "comment", "import",
               "whitespace", "autoescape", "include", "jump"]
+KINDS_LEAF_C20 = ["text", "text", "expr", "expr", "expr", "expr", "expr", "expr", "raw", "set", "comment", "autoescape",
+                  "include", "include", "jump"]
+KINDS_NEST_C20 = ["if", "for", "for", "while", "try", "apply", "apply", "apply", "block", "block", "block"]
 KINDS_NEST = ["if", "if", "for", "for", "while", "try", "try", "apply", "apply", "block", "block"]
 
 
 @st.composite
 def node_strategy(draw, cfg, depth, in_loop):
     profile = cfg["profile"]
-    kinds = KINDS_LEAF + (KINDS_NEST if depth < cfg["max_depth"] else [])
+    if profile == "c20":
+        kinds = KINDS_LEAF_C20 + (KINDS_NEST_C20 if depth < cfg["max_depth"] else [])
+    else:
+        kinds = KINDS_LEAF + (KINDS_NEST if depth < cfg["max_depth"] else [])
     kind = draw(st.sampled_from(kinds))
     exprs = cfg["value_exprs"]
     budget = cfg["budget"]
@@ -327,7 +333,7 @@ def fix_loop_else(nodes):
 
 MUTATION_KINDS = [
     "del_end", "add_end_top", "add_end_nested", "unterminated", "empty_tag", "unknown_operator",
-    "intermediate", "intermediate_in_apply", "intermediate_in_apply", "jump", "jump", "no_name", "missing_arg", "opener_no_name", "bad_whitespace", "autoescape_empty",
+    "intermediate", "intermediate_in_apply", "intermediate_in_apply", "jump", "jump_in_apply_in_loop", "jump_in_apply_in_loop", "no_name", "missing_arg", "opener_no_name", "bad_whitespace", "autoescape_empty",
     "python_level",
 ]
 
@@ -383,9 +389,11 @@ def case_strategy(draw, profile="c19", pools=None, mutate_prob=(0, 3)):
             cfg["budget"][0] = 4
             inner = draw(body_strategy(cfg, 1, False, cfg["budget"]))
             body.insert(draw(st.integers(0, len(body))), ["block", bname, inner])
+        if profile == "c20" and not cfg["state"]["autoescape_used"] and draw(st.booleans()):
+            body.insert(draw(st.integers(0, len(body))), ["autoescape", draw(st.sampled_from(cfg["autoescapes"]))])
         # locals that later expressions read are usually defined first
         if draw(st.booleans()):
-            body[0:0] = [["set", "v0, v1 = 1, 2"], ["set", "v2 = u"]]
+            body[0:0] = [["set", st_] for st_ in pools.get("prelude", ["v0, v1 = 1, 2", "v2 = u"])]
         body = fix_loop_else(body)
         extends = None
         if slot in ext:
@@ -468,8 +476,10 @@ def render_file(fdesc, tagstyle=0, slot=0):
     r = Rendered()
     ts = tagstyle
 
+    ail = [False]  # inside an {% apply %} that itself sits in a loop (of this file)
+
     def point(kind, in_loop, depth, opener):
-        r.points.append((r.off, kind, in_loop, depth, opener))
+        r.points.append((r.off, kind, in_loop, depth, opener, ail[0]))
 
     def tag(kind, contents):
         start = r.off
@@ -593,7 +603,10 @@ def render_file(fdesc, tagstyle=0, slot=0):
         elif k == "apply":
             r.features.add("apply")
             o = tag("apply", "apply " + nd[1])
+            saved = ail[0]
+            ail[0] = saved or in_loop is True
             body(nd[2], "apply", False, depth + 1, o)
+            ail[0] = saved
             end(o, "apply")
         elif k == "block":
             r.features.add("block")
@@ -696,6 +709,16 @@ def mutate(src, r, kind, selector, variant):
         cands = [p for p in r.points if p[1] not in _INTERMEDIATE_ALLOWED[op]]
         if kind == "intermediate_in_apply":
             cands = [p for p in cands if p[1] == "apply"]
+            if not cands:
+                # no apply in this file: bring one along (an if around it makes the tag look attachable)
+                c = pick(r.points)
+                if src[:c[0]].endswith("{"):
+                    return None
+                wrap = [("if t", "else"), ("if t", "elif z"), ("try", "except"), ("try", "finally"),
+                        ("for i0 in range(2)", "else"), ("if z", "else")][variant % 6]
+                snippet = "{%% %s %%}a{%% apply up %%}b{%% %s %%}c{%% end %%}d{%% end %%}" % wrap
+                return {"src": insert_at(c[0], snippet), "expect": "exact", "line": line_of(src, c[0]),
+                        "label": "ill_intermediate_in_apply", "kinds": ("intermediate_wrong_parent",), "parent": "apply"}
         c = pick(cands)
         if c is None or src[:c[0]].endswith("{"):
             return None
@@ -703,14 +726,25 @@ def mutate(src, r, kind, selector, variant):
         lab = "ill_intermediate_outside" if c[1] is None else "ill_intermediate_in_%s" % c[1]
         return {"src": new, "expect": "exact", "line": line_of(src, c[0]), "label": lab,
                 "kinds": ("intermediate_outside", "intermediate_wrong_parent"), "parent": c[1]}
-    if kind == "jump":
+    if kind in ("jump", "jump_in_apply_in_loop"):
         cands = [p for p in r.points if p[2] is False]
+        if kind == "jump_in_apply_in_loop":
+            cands = [p for p in cands if p[5]]
+            if not cands:
+                c = pick(r.points)
+                if src[:c[0]].endswith("{"):
+                    return None
+                loop = ["for i0 in range(2)", "while False", "for x0 in items"][variant % 3]
+                jump = ["break", "continue"][(variant // 3) % 2]
+                snippet = "{%% %s %%}a{%% apply up %%}b{%% if t %%}{%% %s %%}{%% end %%}{%% end %%}{%% end %%}" % (loop, jump)
+                return {"src": insert_at(c[0], snippet), "expect": "exact", "line": line_of(src, c[0]),
+                        "label": "ill_jump_in_apply_in_loop", "kinds": ("jump_outside_loop",), "parent": "apply"}
         c = pick(cands)
         if c is None or src[:c[0]].endswith("{"):
             return None
         snippet = ["{% break %}", "{% continue %}", "{%break%}"][variant % 3]
         new = insert_at(c[0], snippet)
-        lab = "ill_jump_in_apply" if c[1] == "apply" else "ill_jump_outside_loop"
+        lab = "ill_jump_in_apply_in_loop" if c[5] else ("ill_jump_in_apply" if c[1] == "apply" else "ill_jump_outside_loop")
         return {"src": new, "expect": "exact", "line": line_of(src, c[0]), "label": lab, "kinds": ("jump_outside_loop",),
                 "parent": c[1]}
     if kind == "opener_no_name":
